@@ -43,6 +43,8 @@ inductive Instr where
   | opbGetItem (o : Reg) (i : Int)
   | opbIterItem (o : Reg) (i : Int)
   | pbcSet (c : Reg) (i : Nat) (coef lit : Int)
+  | normBip (g : Reg)                             -- `BipartiteGraph.normalize(B)`: the SAME object for a cnfgen graph
+  | bipAddEdge (g : Reg) (u v : Int)              -- `B.add_edge(u, v)` by the caller
   deriving Repr, Inhabited
 
 /-- machine state: the store, the registers (one per executed instruction; `none`: no object), the outcomes -/
@@ -118,6 +120,19 @@ def step (cfg : Cfg) (m : Machine) (ins : Instr) : Option Machine :=
   | .opbGetItem o i => do let o ← m.reg o; fin (addrRes (opbGetItem s o i))
   | .opbIterItem o i => do let o ← m.reg o; fin (addrRes (opbIterItem s o i))
   | .pbcSet c i coef lit => do let c ← m.reg c; fin (unitRes (pbcSetTerm s c i coef lit))
+  | .normBip g => do
+      let g ← m.reg g
+      match readBipG s g with
+      | none => none
+      | some _ => fin (s, .ok (some g))
+  | .bipAddEdge g u v => do
+      let g ← m.reg g
+      match readBipG s g with
+      | none => none
+      | some B =>
+        match B.addEdge u v with
+        | .error e => fin (s, .error e)
+        | .ok B' => fin (write s g (.bipg B'), .ok none)
 
 def runProg (cfg : Cfg) : Machine → List Instr → Option Machine
   | m, [] => some m
